@@ -34,8 +34,8 @@ var (
 
 func c01Acceptable(err error) bool { return err == nil || err == c01ErrOK }
 
-//verif:entry native tier=quick,thorough float=mono steps=2000000 cover=rejected,admitted,panicked,ctxdone,fallback,packagelevel
-//verif:doc accounting: real NewBreaker(); window preloaded with F in {0, 30} failures in the current bucket (so both admission outcomes occur, the random draw being arbitrary); entry point one of the 10 Do*/Allow* methods of the breaker object, or the package-level helper of the same name (breakers.go registry); request outcome one of nil / acceptable error / unacceptable error / panic; fallback present or absent (where the entry point has one); context done or not (Ctx variants); Allow followed by Accept or Reject.
+//verif:entry native tier=quick,thorough float=mono steps=2000000 cover=rejected,admitted,panicked,ctxdone,fallback,packagelevel,nestedunavailable
+//verif:doc accounting: real NewBreaker(); window preloaded with F in {0, 30} failures in the current bucket (so both admission outcomes occur, the random draw being arbitrary); entry point one of the 10 Do*/Allow* methods of the breaker object, or the package-level helper of the same name (breakers.go registry); request outcome one of nil / acceptable error / unacceptable error / panic / ErrServiceUnavailable returned by the request itself (a nested breaker: still an admitted call, the fallback must not run); fallback present or absent (where the entry point has one); context done or not (Ctx variants); Allow followed by Accept or Reject.
 func Verif_C01_Accounting() {
 	// the same entry points are reachable through the package-level helpers of breakers.go, which look
 	// the breaker up by name in the registry
@@ -56,7 +56,7 @@ func Verif_C01_Accounting() {
 	}
 	before := c01Window(gb)
 	entry := rt.Choose("entry", 10)
-	outcome := rt.Choose("outcome", 4) // 0 nil, 1 acceptable error, 2 unacceptable error, 3 panic
+	outcome := rt.Choose("outcome", 5) // 0 nil, 1 acceptable error, 2 unacceptable error, 3 panic, 4 the request itself fails with ErrServiceUnavailable (a nested breaker)
 	withCtx := entry%2 == 1
 	ctxDone := withCtx && rt.Bool("ctxDone")
 	ctx, cancel := context.WithCancel(context.Background())
@@ -71,6 +71,9 @@ func Verif_C01_Accounting() {
 		reqErr = c01ErrOK
 	case 2:
 		reqErr = c01ErrBad
+	case 4:
+		reqErr = ErrServiceUnavailable
+		rt.Cover("nestedunavailable")
 	}
 	req := func() error {
 		reqRuns++
